@@ -98,3 +98,46 @@ pub fn main(args: &[String]) -> i32 {
     eprintln!("pv run: {n} programs");
     0
 }
+
+/// `pv runsrc`: sources -> compile for sqlite -> execute on every database instance.
+/// args: <dbset.json> <sources.ndjson {"id","src"[,"base"]}> <out.ndjson>.  One Result event per source; values are
+/// rendered to strings (the canonical text of their value record) so that the validator compares like with like.
+pub fn main_src(args: &[String]) -> i32 {
+    let dbset: J = serde_json::from_str(&std::fs::read_to_string(&args[0]).expect("dbset")).expect("dbset json");
+    let mut out = std::io::BufWriter::new(std::fs::File::create(&args[2]).expect("out"));
+    let conns: Vec<rusqlite::Connection> =
+        dbset["dbs"].as_array().expect("dbs").iter().map(|i| db::open(&dbset["schema"], i).expect("open db")).collect();
+    for line in std::fs::read_to_string(&args[1]).expect("sources").lines() {
+        if line.trim().is_empty() {
+            continue;
+        }
+        let rec: J = serde_json::from_str(line).expect("json");
+        let src = rec["src"].as_str().unwrap_or("");
+        let mut e = json!({"ev": "Result", "id": rec["id"], "base": rec["base"].as_str().unwrap_or(""), "outcome": "", "names": [], "rows": [], "detail": "", "sql": ""});
+        match api::compile(src, Some("sqlite")) {
+            api::Outcome::Ok(sql) => {
+                e["sql"] = json!(sql);
+                let mut all = vec![];
+                let mut err = None;
+                for c in &conns {
+                    match db::query(c, &sql) {
+                        Ok(r) => {
+                            e["names"] = json!(r.names);
+                            all.push(json!(r.rows.iter().map(|row| row.as_array().map(|a| a.iter().map(|v| v.to_string()).collect::<Vec<_>>()).unwrap_or_default()).collect::<Vec<_>>()));
+                        }
+                        Err(x) => { err = Some(x); break; }
+                    }
+                }
+                match err {
+                    None => { e["outcome"] = json!("rows"); e["rows"] = json!(all); }
+                    Some(x) => { e["outcome"] = json!("exec"); e["detail"] = json!(x); }
+                }
+            }
+            api::Outcome::Err(m) => { e["outcome"] = json!("err"); e["detail"] = json!(m.inner.first().map(|x| x.reason.clone()).unwrap_or_default()); }
+            api::Outcome::Panic { msg, file, line } => { e["outcome"] = json!("panic"); e["detail"] = json!(format!("{file}:{line}:{msg}")); }
+        }
+        emit(&mut out, &e);
+    }
+    emit(&mut out, &json!({"ev": "End"}));
+    0
+}
